@@ -13,12 +13,13 @@ for b in blocks:
         continue
     if b.startswith("error: could not compile") or b.startswith("error: aborting"):
         continue
-    m = re.search(r"--> src/main\.rs:(\d+):", b)
+    m = re.search(r"--> (part\d+/src/lib\.rs|src/lib\.rs|src/main\.rs):(\d+):", b)
     if not m:
         other = True
         continue
-    line = int(m.group(1))
-    hit = [r for r in regions if r["first_line"] <= line <= r["last_line"]]
+    line = int(m.group(2))
+    fname = m.group(1)
+    hit = [r for r in regions if r["first_line"] <= line <= r["last_line"] and (r.get("file", "src/main.rs") == fname or r.get("file", "").endswith("/" + fname))]
     if not hit:
         other = True
         continue
